@@ -137,6 +137,10 @@ def validate_against_model(ctx, good, label):
     """Replays every recorded run block by block against Sock.step (driver)."""
     if not ctx.driver_ok:
         return
+    if any(b["name"].startswith("correspondence:socket-trace") for b in ctx.broken):
+        # the model already fails to follow the code: further recordings add nothing (and a model that has lost track of the code can
+        # take very long to say so on long recordings); the search judges the implementation with the Spec monitors alone
+        return
     lines = []
     spans = []
     for fam, script, r in good:
